@@ -2,6 +2,8 @@ package main
 
 import (
 	"fmt"
+	"go/token"
+	"go/types"
 	"strings"
 
 	"golang.org/x/tools/go/ssa"
@@ -105,4 +107,113 @@ func checkClientValues(c *Ctx, rule string) {
 		c.Check(bad == "", rule, shortFn(lc)+": quotes removed by position", lc.Pos(), fmt.Sprintf("%d hand-over(s); the value is the text between the first and the last character, unescaped", n), bad)
 	}
 	_ = ssa.Value(nil)
+}
+
+// checkByteCopyLoops (TYFLOW): a loop written "for i := range s" over a string visits the first
+// byte of every character only.  Reading s[i] there is fine for finding an ASCII delimiter, but a
+// loop that copies the bytes it reads (into a builder, a buffer or a slice) loses the continuation
+// bytes of every non-ASCII character: the option splitter turned
+// $client='Мой ноутбук' into garbage that way.  Flagged: a range over a string whose character
+// value is unused, whose index reads the same string, and whose byte is written somewhere.
+func checkByteCopyLoops(c *Ctx, rule string) {
+	c.Rule(rule, "TYFLOW", "a loop that copies a string byte by byte visits every byte, not only the first byte of every character", 1)
+	n := 0
+	for _, fn := range c.P.AllLibFuncs() {
+		if fn.Pkg == nil || !strings.HasSuffix(fn.Pkg.Pkg.Path(), "/rules") {
+			continue
+		}
+		// every loop that reads bytes of a string by an index
+		eachInstr(fn, func(_ *ssa.BasicBlock, in ssa.Instruction) {
+			// s[i] on a string (go/ssa: Index; Lookup in older releases)
+			var lk ssa.Value
+			var lkX, lkIndex ssa.Value
+			switch x := in.(type) {
+			case *ssa.Index:
+				lk, lkX, lkIndex = x, x.X, x.Index
+			case *ssa.Lookup:
+				lk, lkX, lkIndex = x, x.X, x.Index
+			default:
+				return
+			}
+			if in.Parent() != fn {
+				return
+			}
+			if b, isB := lkX.Type().Underlying().(*types.Basic); !isB || b.Info()&types.IsString == 0 {
+				return
+			}
+			// does the byte get copied?
+			copied := false
+			var walk func(v ssa.Value, depth int)
+			walk = func(v ssa.Value, depth int) {
+				if depth > 4 || copied {
+					return
+				}
+				rs := v.Referrers()
+				if rs == nil {
+					return
+				}
+				for _, r := range *rs {
+					switch r := r.(type) {
+					case ssa.CallInstruction:
+						cc := r.Common()
+						name := ""
+						if cal := cc.StaticCallee(); cal != nil {
+							name = calleeName(cal)
+						}
+						if b, ok := cc.Value.(*ssa.Builtin); ok && b.Name() == "append" {
+							copied = true
+						}
+						if strings.HasSuffix(name, ".WriteByte") || strings.HasSuffix(name, ".WriteRune") {
+							copied = true
+						}
+					case *ssa.Store:
+						if r.Val == v {
+							copied = true
+						}
+					case *ssa.Convert:
+						walk(r, depth+1)
+					case *ssa.Phi:
+						walk(r, depth+1)
+					case *ssa.Slice:
+					}
+				}
+			}
+			walk(lk, 0)
+			if !copied {
+				return
+			}
+			n++
+			key := shortFn(fn) + ": bytes copied from " + lkX.Name()
+			// where does the index come from?
+			bad := ""
+			var fromRange func(v ssa.Value, depth int) *ssa.Range
+			fromRange = func(v ssa.Value, depth int) *ssa.Range {
+				if depth > 4 {
+					return nil
+				}
+				switch x := v.(type) {
+				case *ssa.Extract:
+					if nx, ok := x.Tuple.(*ssa.Next); ok && nx.IsString && x.Index == 1 {
+						if rg, ok := nx.Iter.(*ssa.Range); ok {
+							return rg
+						}
+					}
+				case *ssa.Phi:
+					for _, e := range x.Edges {
+						if rg := fromRange(e, depth+1); rg != nil {
+							return rg
+						}
+					}
+				}
+				return nil
+			}
+			if rg := fromRange(lkIndex, 0); rg != nil && rg.X == lkX {
+				bad = "the bytes of " + lkX.Name() + " are read at the positions a range over the string yields, i.e. at the first byte of every character, and copied: the continuation bytes of non-ASCII characters are dropped (a $client name or another option value written in a non-Latin script is stored as garbage and never matches)"
+			}
+			c.Check(bad == "", rule, key, lk.Pos(), "the index runs over every byte (counted loop), or the characters themselves are copied", bad)
+		})
+	}
+	if n == 0 {
+		c.Fail(rule, "byte-copying loops", token.NoPos, "UNDECIDED: no loop that copies bytes of a string found in package rules (the option splitter is one)")
+	}
 }
